@@ -99,6 +99,9 @@ func runNet(s *vsimcore.Sim, p vsimcore.Params) vsimcore.RunInfo {
 			cfg.rCrash = 1 + s.Choose("r", 2)
 			cfg.parkStores = true
 		}
+		if p.Bool("recover", false) && s.Pct("f-starve", 40) {
+			cfg.rStarve = 1 + s.Choose("r", 3)
+		}
 		if cfg.nByz > 0 && s.Pct("f-equivocate", 70) {
 			cfg.rEquivocate = 100 + s.Choose("r", 400)
 		}
